@@ -122,8 +122,8 @@ pub mod packet {
         #[verifier::external_body]
         fn clone(&self) -> (r: PublicKey) ensures r == *self { unimplemented!() }
     }
-    impl Serialize for PublicKey { uninterp spec fn ser(&self) -> Seq<u8>; }
-    impl Serialize for PublicSubkey { uninterp spec fn ser(&self) -> Seq<u8>; }
+    impl Serialize for PublicKey { uninterp spec fn ser(&self) -> Seq<u8>; #[verifier::external_body] fn write_len(&self) -> (r: usize) { unimplemented!() } }
+    impl Serialize for PublicSubkey { uninterp spec fn ser(&self) -> Seq<u8>; #[verifier::external_body] fn write_len(&self) -> (r: usize) { unimplemented!() } }
     impl types::KeyDetails for PublicKey {
         open spec fn spec_version(&self) -> KeyVersion { self.inner().version_s() }
         uninterp spec fn spec_fingerprint(&self) -> Fingerprint;
